@@ -134,7 +134,7 @@ Proof. vm_compute. reflexivity. Qed.
 (* ---- the same two theorems for the evaluator with EVERY transcribed built-in (EvalFull.v:
    the aggregate, list, string, record built-ins and sort_by / group_by / count_by).  Their
    premise is FullInst.builtin_full_le: no built-in swallows the depth error of its callback.
-   sort_by did before fix 3b066f5 (F33): it read a failing key call as "equal keys", and the
+   sort_by did before fix 3b066f5 (F35): it read a failing key call as "equal keys", and the
    statement below was false for it. ---- *)
 Theorem C18_no_builtin_swallows_the_depth_error : builtin_le builtin_full /\ binop_le binop_impl.
 Proof. exact (conj builtin_full_le binop_impl_le). Qed.
@@ -176,7 +176,7 @@ Check C18_depth_error_is_genuine_full : forall release c e d,
 Print Assumptions C18_depth_error_is_genuine_full.
 
 (* runaway recursion through the key function of sort_by / group_by / count_by, two callback
-   calls per level (the F33 shape) *)
+   calls per level (the F35 shape) *)
 Definition last_result_full (prog : list stmt) : option stmt_result :=
   match rev (snd (run (eval_full) (init_session []) prog)) with (r, _) :: _ => Some r | [] => None end.
 Definition two (a b : expr) : expr := EList [Cm [] a None; Cm [] b None].
